@@ -488,8 +488,16 @@ where
             Ok(())
         };
         let result = f(self);
-        let _ = self.read_byte();
-        result
+        // One more dummy byte to let the card finish. A bus error here is
+        // still a bus error, and a card we could not finish talking to is
+        // not initialised.
+        match (result, self.read_byte()) {
+            (Ok(()), Err(e)) => {
+                self.card_type = None;
+                Err(e)
+            }
+            (result, _) => result,
+        }
     }
 
     /// Perform an application-specific command.
